@@ -23,6 +23,29 @@ func init() {
 
 func runC38(c *eng.Ctx) {
 
+	// what a read hands out is its own memory: the bytes a needle's data, name, mime and pairs point into come from a
+	// buffer allocated for this read (ReadNeedleBlob), not from a pooled buffer that the next read overwrites
+	if fn := c.NeedFunc("weed/storage/needle", "(*Needle).ReadData"); fn != nil {
+		rb := eng.Find(fn, eng.PlainCallTo("needle.Needle).ReadBytes"))
+		if len(rb) == 0 {
+			c.Undecided("ALIAS-read-buffer", eng.FuncName(fn), fn.Pos(), "ReadBytes call not found")
+		}
+		for i, in := range rb {
+			ok := false
+			if ex, isEx := eng.Unwrap(eng.Arg(in.(ssa.CallInstruction), 0)).(*ssa.Extract); isEx && ex.Index == 0 {
+				if call, isC := ex.Tuple.(*ssa.Call); isC && eng.CalleeIs(call, "needle.ReadNeedleBlob") {
+					ok = true
+				}
+			}
+			c.Ob("ALIAS-read-buffer", fmt.Sprintf("%s parses-its-own-buffer#%d", eng.FuncName(fn), i), ok && len(eng.Find(fn, eng.CallTo("sync.Pool).Put"))) == 0, in.Pos(),
+				"the record is parsed from the buffer ReadNeedleBlob allocated for this read; nothing is returned to a pool while the needle still points into it")
+		}
+	}
+	if fn := c.NeedFunc("weed/storage/needle", "ReadNeedleBlob"); fn != nil {
+		fresh := len(eng.ByteBufLens(fn)) > 0 || len(eng.Find(fn, func(in ssa.Instruction) bool { _, ok := in.(*ssa.MakeSlice); return ok })) > 0
+		c.Ob("ALIAS-read-buffer", eng.FuncName(fn)+" allocates", fresh && len(eng.Find(fn, eng.CallTo("sync.Pool).Get"))) == 0, fn.Pos(), "ReadNeedleBlob allocates the buffer it returns")
+	}
+
 	// the index the serialised writers update and the readers consult: requests that reach a volume out of key order
 	// are placed by swapping entries; the 5th offset byte (kept in a parallel slice) must travel with its entry, or a
 	// later read of a key that was passed over is served another record
